@@ -17,7 +17,7 @@ from . import walk as K
 from . import engine as E
 from .core import Run, Violation, Foreign
 
-SKIP_OPS = ("restart", "crash", "ro_session", "mode_check", "grid_cell", "observe", "flush")
+SKIP_OPS = ("crash", "ro_session", "mode_check", "grid_cell", "observe", "flush")
 
 
 def _disk_seams(on):
@@ -61,6 +61,7 @@ def one(profile, seed, how="flush"):
             os.close(rd)
             os.chdir(tmp)
             run = Run(seed, profile, r["knobs"])
+            run.real_mode = True
             _disk_seams(False)
             for o in ops:
                 run.apply(dict(o))
